@@ -1,6 +1,7 @@
 import Mkdb.Proofs.NoPanicExec
 import Mkdb.Proofs.SpecRefineB
 import Mkdb.Proofs.SessionInv9
+import Mkdb.Proofs.TypedTables7
 /-!
 # C18 — no statement can crash the engine (SELECT evaluation)
 
@@ -175,5 +176,286 @@ example : ∀ st ∈ [Stmt.delete tname none, .use [120], .createDatabase [100],
 `INSERT INTO t VALUES (5), (6)` meets the side conditions -/
 example : SessInv sessT ∧ StmtSide sessT (.insert tname [] [[.int 5], [.int 6]]) :=
   ⟨⟨_, sessAbs_sessT⟩, stmtSide_sessT⟩
+
+end Mkdb.Session
+
+/-! ## SELECT on STORED tables: typed storage discharges the hypotheses of the SELECT theorems
+
+`C18_no_panic_partial` asks for well-shaped tables and leaves one panic open (the sort comparator on a
+column of mixed types); `C18_sort_safe` closes it for columns of one type.  This section shows that the
+tables a SELECT reads from a database that statements produced ARE well shaped and typed, that every
+output column of a SELECT over typed tables holds values of one type or NULL, and so that a SELECT on a
+stored database never panics.  Proofs: `Mkdb/Proofs/TypedTables1.lean` … `TypedTables7.lean`.
+`rowHas ks row` (TypedTables1): the row has exactly one value per entry of the list of kinds `ks`, each
+NULL or of that kind (`Kind`: integer, string, boolean). -/
+
+namespace Mkdb.Spec
+open Mkdb.Exec.TypedP
+
+/-- **C18.plain_database_stays_typed** (deliverable 1).  `Typed sdb` (Proofs/TypedTables4): the tables of
+the plain in-memory database have distinct names, and every row of every table has exactly one value per
+declared column, each NULL or of the column's kind (INT / BIGINT: an integer, VARCHAR: a string, BOOLEAN: a
+boolean - `kindOf`, read off `Tuple.validate`).  The empty database is typed, and every statement the
+plain model accepts keeps it typed: INSERT because `rowOf` lets a row through only if `Tuple.Encode`
+accepts it for the table's columns, UPDATE because its per-row check is the same, DELETE because it only
+removes rows, CREATE TABLE because the new table is empty and its name fresh; so the plain database of
+every history (`specHist`: refused statements change nothing) is typed. -/
+theorem C18_plain_database_stays_typed :
+    Typed [] ∧
+    (∀ (sdb sdb' : SDB) (st : Sql.Stmt), Typed sdb → specStmt sdb st = some sdb' → Typed sdb') ∧
+    ∀ sts : List Sql.Stmt, Typed (Mkdb.Store.specHist [] sts) :=
+  ⟨typed_empty, fun _ _ _ h hs => h.specStmt hs, fun sts => Mkdb.Store.typed_specHist sts [] typed_empty⟩
+
+/-- the distinct table names are part of `Typed` because they are needed: with two tables of one name
+(which CREATE TABLE never produces) the INSERT of the plain model checks the row against the first table
+and appends it to both - here an integer lands in a VARCHAR column -/
+theorem C18_typed_rows_need_distinct_names :
+    TypedRows [⟨[116], [⟨"a", .int, 0⟩], []⟩, ⟨[116], [⟨"a", .varchar, 9⟩], []⟩] ∧
+    specStmt [⟨[116], [⟨"a", .int, 0⟩], []⟩, ⟨[116], [⟨"a", .varchar, 9⟩], []⟩] (.insert [116] [] [[.int 1]]) =
+      some [⟨[116], [⟨"a", .int, 0⟩], [⟨none, [.int 1]⟩]⟩, ⟨[116], [⟨"a", .varchar, 9⟩], [⟨none, [.int 1]⟩]⟩] ∧
+    ¬ TypedRows [⟨[116], [⟨"a", .int, 0⟩], [⟨none, [.int 1]⟩]⟩, ⟨[116], [⟨"a", .varchar, 9⟩], [⟨none, [.int 1]⟩]⟩] :=
+  typedRows_alone_is_not_invariant
+
+/-- non-vacuity: the plain database after `CREATE TABLE t (a INT); INSERT INTO t VALUES (5), (6)` is typed,
+by the theorem -/
+example : Typed Mkdb.Store.sdbA1 :=
+  (C18_plain_database_stays_typed.2.1 _ _ (.insert Mkdb.Store.tname [] [[.int 5], [.int 6]])
+    (C18_plain_database_stays_typed.2.1 [] _ (.createTable Mkdb.Store.tname Mkdb.Store.acols)
+      C18_plain_database_stays_typed.1 Mkdb.Store.spec_create_t) rfl)
+
+end Mkdb.Spec
+
+namespace Mkdb.Exec
+open Mkdb.Sql Mkdb.Exec.NoPanicP Mkdb.Exec.TypedP
+
+/-- **C18.select_output_columns_are_typed** (deliverable 3).  `KindedFetch fetch`: every table the
+executor can read has a list of kinds, one per column, that every row meets (this contains `WellShaped`).
+Then for every SELECT whose select list has a shape the parser builds - any FROM clause: inner, LEFT and
+RIGHT joins, nested, with their NULL padding; any WHERE; any GROUP BY; any aggregates; ORDER BY, OFFSET,
+LIMIT - the evaluation does not panic, and if it returns rows there is ONE list of kinds that every
+returned row meets: each output column holds values of one kind or NULL.  The kind of an output column is
+`itemKind` (Proofs/TypedTables2): a column keeps the kind of its source column (`projectItem_kind`), also
+as a grouping column (`aggregateRows_kinded`: read from the first row of the group); COUNT and AVG give
+integers, over an empty input too; a literal has its own kind; a comparison, AND, OR gives a boolean or an
+error value (`evaluate_kind`).  No expression kind breaks this - no reachable sort panic was found. -/
+theorem C18_select_output_columns_are_typed {fetch : Bytes → Option Table} (hk : KindedFetch fetch) (q : Select)
+    (hq : (∃ a, q.list = [⟨.star, a⟩]) ∨ isStar q.list = false) :
+    (∀ s, evaluateSelect fetch q ≠ .panic s) ∧
+    ∀ rows hdr, evaluateSelect fetch q = .ok (rows, hdr) → ∃ ks : List Kind, ∀ r ∈ rows, rowHas ks r = true :=
+  ⟨evaluateSelect_no_panic hk q hq, fun _ _ e => (evaluateSelect_kinded hk q hq).of_ok e⟩
+
+/-- the stage-by-stage form: the rows projection hands to aggregation and aggregation hands to ORDER BY are
+kinded by `outKinds` - the kinds of the sources for `SELECT *`, the `itemKind`s of the select list
+otherwise - which is what `C18_sort_safe` needs for every ORDER BY key, whatever position it resolves to -/
+theorem C18_sorted_rows_are_comparable (q : Select) (fields : List Field) (ks : List Kind) (rows : List Row)
+    (hq : (∃ a, q.list = [⟨.star, a⟩]) ∨ isStar q.list = false)
+    (hlen : ∀ r ∈ rows, r.length = fields.length) (hk : ∀ r ∈ rows, rowHas ks r = true)
+    (out : List Row) (hdr : List Field) (h : SelectP.selectTail q fields rows = .ok (out, hdr)) :
+    (∀ r ∈ out, rowHas (outKinds q.list fields ks) r = true) ∧
+    ∀ a ∈ out, ∀ b ∈ out, ∀ i : Nat, Comparable ((a[i]?).getD .null) ((b[i]?).getD .null) := by
+  have h1 := (selectTail_kinded q fields ks rows hq hlen hk).of_ok h
+  exact ⟨h1, fun a ha b hb i => rowHas_comparable (h1 a ha) (h1 b hb) i⟩
+
+/-- non-vacuity: `SELECT b, a … ORDER BY b` over the rows of a table with an integer column `a` and a
+string column `b` (one NULL): the hypotheses hold and the tail of the evaluation returns the sorted rows -/
+example : (∀ r ∈ Mkdb.Store.exKT.rows, r.length = [(⟨[116], [97]⟩ : Field), ⟨[116], [98]⟩].length) ∧
+    (∀ r ∈ Mkdb.Store.exKT.rows, rowHas [.int, .str] r = true) ∧
+    SelectP.selectTail
+      { list := [⟨.expr (.val (.col ⟨[], [98]⟩)), []⟩, ⟨.expr (.val (.col ⟨[], [97]⟩)), []⟩],
+        orderBy := [⟨⟨[], [98]⟩, false⟩] }
+      [⟨[116], [97]⟩, ⟨[116], [98]⟩] Mkdb.Store.exKT.rows =
+    .ok ([[.null, .int 2], [.str [120], .int 1], [.str [121], .int 3]], [⟨[116], [98]⟩, ⟨[116], [97]⟩]) :=
+  ⟨by decide, by decide, rfl⟩
+
+/-- non-vacuity: a table with an integer and a string column (with a NULL) is kinded; its LEFT JOIN with
+itself, sorted on a column the padding fills with NULLs, evaluates to the four rows -/
+example : KindedFetch Mkdb.Store.exKFetch ∧
+    ((∃ a, Mkdb.Store.exJoinQuery.list = [⟨.star, a⟩]) ∨ isStar Mkdb.Store.exJoinQuery.list = false) ∧
+    Mkdb.Store.selectGives (evaluateSelect Mkdb.Store.exKFetch Mkdb.Store.exJoinQuery)
+      [[.int 1, .str [120], .int 3, .str [121]], [.int 2, .null, .int 3, .str [121]],
+       [.int 1, .str [120], .int 2, .null], [.int 3, .str [121], .null, .null]]
+      [⟨[120], [97]⟩, ⟨[120], [98]⟩, ⟨[121], [97]⟩, ⟨[121], [98]⟩] = true :=
+  ⟨Mkdb.Store.exKFetch_kinded, Mkdb.Store.exQueries_ok.2.2.1, Mkdb.Store.exJoin_on_exKFetch⟩
+
+/-- the hypothesis `KindedFetch` is needed: on a table whose one column holds an integer and a string
+(which typed storage never produces) `SELECT * FROM t ORDER BY i` panics in the sort comparator -/
+example : evaluateSelect (fun _ => some ⟨[[105]], [[.int 1], [.str [97]]]⟩)
+    { list := [⟨.star, []⟩], from_ := some (.table ⟨[116], none⟩), orderBy := [⟨⟨[], [105]⟩, false⟩] } =
+    .panic "sortColumns: no comparison available" := rfl
+
+end Mkdb.Exec
+
+namespace Mkdb.Store
+open Mkdb.Tree Mkdb.Page Mkdb.Tuple Mkdb.Generated Mkdb.Exec Mkdb.Exec.TypedP Mkdb.Sql
+
+/-- **C18.stored_tables_are_typed** (deliverable 2).  `fetchOf db` (Proofs/TypedTables5) is the `fetch`
+function `evaluateSelect` is run with on a stored database: `RelationService.Fetch` (`Store.fetchTable`)
+of the table, handed to the executor as `Engine.fetchForExec` hands it to UPDATE / DELETE (column names as
+bytes, rows without row ids); an error value of `Fetch` is `none`, which the executor answers with an
+error value.  For a database that satisfies the invariant `DbInv` (what every statement of a session
+keeps): (1) `fetchOf db` is well shaped - for ANY database, invariant or not: every row `Fetch` returns is
+one decoded tuple read in schema order (`fetchTable_rows`); (2) the plain database `sdb` it abstracts to
+is `Typed` - this is a consequence of the invariant (every row is decoded with a schema of distinct column
+names, `decodeTuple_kinds`), not an extra assumption; (3) for every table name other than `sys_pages` /
+`sys_schema`, `Fetch` returns rows or an error value (`FetchTotal`: no panic, unmodelled path, exhausted
+fuel), and what the SELECT then reads is the table of the plain database: its declared columns, exactly
+its rows, every row kinded by the declared column types.  The two catalog tables are excluded from (3):
+the invariant describes the `sys_schema` rows of the user tables only (see
+`C18_select_on_any_table_never_panics` for a check that covers them). -/
+theorem C18_stored_tables_are_typed (db : Engine.DB) (sdb : Spec.SDB) (pt sch : Levels)
+    (tbls : List (Bytes × Levels)) (h : DbInv db sdb pt sch tbls) :
+    NoPanicP.WellShaped (fetchOf db) ∧ Spec.Typed sdb ∧
+    ∀ n, n ≠ sysPages → n ≠ sysSchema → FetchTotal db n ∧
+      ∀ t, fetchOf db n = some t → ∃ tb, Spec.findTable sdb n = some tb ∧
+        t.cols = tb.cols.map (fun fd => fd.name.toUTF8.toList) ∧ t.rows = tb.rows.map (·.vals) ∧
+        ∀ r ∈ t.rows, rowHas (Spec.colKinds tb.cols) r = true :=
+  ⟨fetchOf_wellShaped db, h.typed, fun n h1 h2 => stored_table_typed h.abs n h1 h2⟩
+
+/-- well-shapedness needs no hypothesis at all: whatever the store, the rows `Fetch` returns have one
+value per column of the schema it returns -/
+theorem C18_fetched_tables_are_well_shaped (db : Engine.DB) : NoPanicP.WellShaped (fetchOf db) :=
+  fetchOf_wellShaped db
+
+/-- non-vacuity on the computed database `CREATE DATABASE; CREATE TABLE t (a INT)` leaves: the invariant
+holds, and the SELECT reads the empty table with the column `a` for `t`, nothing for an unknown name -/
+example : DbInv tableDB sdbA0 ptT schT [(tname, tT)] ∧
+    (fetchOf tableDB tname).map (fun t => (t.cols, t.rows)) = some ([[97]], []) ∧
+    (fetchOf tableDB [117]).isNone = true :=
+  ⟨dbFlushed_tableDB.inv, fetchOf_tableDB.1, fetchOf_tableDB.2⟩
+
+/-- **C18.select_on_stored_tables_never_panics** (deliverable 4).  For every database that satisfies the
+invariant `DbInv` - the database `CREATE DATABASE` leaves does, and every CREATE TABLE / INSERT / UPDATE /
+DELETE keeps it (`C18_every_statement_keeps_the_database_invariant`); `Typed sdb` follows from it
+(`C18_stored_tables_are_typed`) - and every SELECT whose select list has a shape the parser builds (`hq`:
+the hypothesis of `C18_no_panic_partial`; `C18_parsed_select_has_the_shape`) and whose FROM clause names
+user tables (`UserTables q`: neither `sys_pages` nor `sys_schema`): `Fetch` of every table read returns
+rows or an error value, `evaluateSelect (fetchOf db) q` is `.ok` or `.err` - NEVER `.panic`, the sort
+comparator included -, and every column of the rows it returns holds values of one kind or NULL.
+Termination: `evaluateSelect` is structural recursion on the row lists, `Fetch` runs on fuel that
+`FetchTotal` shows is not exhausted.  `UserTables` is not known to be needed: it is the gap of the
+invariant named in `C18_stored_tables_are_typed`. -/
+theorem C18_select_on_stored_tables_never_panics (db : Engine.DB) (sdb : Spec.SDB) (pt sch : Levels)
+    (tbls : List (Bytes × Levels)) (h : DbInv db sdb pt sch tbls) (q : Select)
+    (hq : (∃ a, q.list = [⟨.star, a⟩]) ∨ isStar q.list = false) (hn : UserTables q) :
+    (∀ n ∈ selectNames q, FetchTotal db n) ∧ (∀ s, evaluateSelect (fetchOf db) q ≠ .panic s) ∧
+    ∀ rows hdr, evaluateSelect (fetchOf db) q = .ok (rows, hdr) → ∃ ks : List Kind, ∀ r ∈ rows, rowHas ks r = true :=
+  select_on_stored_never_panics h.abs q hq hn
+
+/-- the same from the relation `Rel` of the refinement theorems (C01) -/
+theorem C18_select_on_related_database_never_panics (db : Engine.DB) (sdb : Spec.SDB) (pt sch : Levels)
+    (tbls : List (Bytes × Levels)) (h : Rel db pt sch tbls sdb) (q : Select)
+    (hq : (∃ a, q.list = [⟨.star, a⟩]) ∨ isStar q.list = false) (hn : UserTables q) :
+    (∀ n ∈ selectNames q, FetchTotal db n) ∧ ∀ s, evaluateSelect (fetchOf db) q ≠ .panic s :=
+  ⟨(select_on_stored_never_panics h.1 q hq hn).1, (select_on_stored_never_panics h.1 q hq hn).2.1⟩
+
+/-- non-vacuity: the computed database is related to its plain database -/
+example : Rel tableDB ptT schT [(tname, tT)] sdbA0 := rel_tableDB
+
+/-- non-vacuity on the computed database: the hypotheses hold for `SELECT a, count(*) FROM t GROUP BY a
+ORDER BY a` and for `SELECT * FROM t x LEFT JOIN t y ON x.a < y.a ORDER BY y.a DESC`, and both evaluate
+(computed) to no rows under their headers -/
+example : DbInv tableDB sdbA0 ptT schT [(tname, tT)] ∧
+    ((∃ a, exGroupQuery.list = [⟨.star, a⟩]) ∨ isStar exGroupQuery.list = false) ∧ UserTables exGroupQuery ∧
+    ((∃ a, exJoinQuery.list = [⟨.star, a⟩]) ∨ isStar exJoinQuery.list = false) ∧ UserTables exJoinQuery ∧
+    selectGives (evaluateSelect (fetchOf tableDB) exGroupQuery) []
+      [⟨tname, [97]⟩, ⟨[], "count(*)".toUTF8.toList⟩] = true ∧
+    selectGives (evaluateSelect (fetchOf tableDB) exJoinQuery) [] [⟨[120], [97]⟩, ⟨[121], [97]⟩] = true :=
+  ⟨dbFlushed_tableDB.inv, exQueries_ok.1, exQueries_ok.2.1, exQueries_ok.2.2.1, exQueries_ok.2.2.2,
+    exQueries_on_tableDB.1, exQueries_on_tableDB.2⟩
+
+/-- non-vacuity with rows: after `INSERT INTO t VALUES (5), (6)` on that database (accepted:
+`C08_accepted_statement_is_read_back`) the theorem applies to the database the engine model returns -/
+example : ∃ db', evalStmt tableDB [] (.insert tname [] [[.int 5], [.int 6]]) = .ok () db' ∧
+    ∀ s, evaluateSelect (fetchOf db') exGroupQuery ≠ .panic s := by
+  obtain ⟨db', pt', sch', tbls', e, hi'⟩ := dbFlushed_tableDB.inv.accepted [] _ room_insert56 sdbA1 rfl
+  exact ⟨db', e, (C18_select_on_stored_tables_never_panics db' sdbA1 pt' sch' tbls' hi' exGroupQuery
+    exQueries_ok.1 exQueries_ok.2.1).2.1⟩
+
+/-- **C18.select_on_any_table_never_panics**: the two catalog tables included, on a database that passes
+the Boolean check `catalogOK db` (`Fetch` of `sys_pages` and of `sys_schema` returns an error value or
+rows under a schema of distinct column names; then those rows are typed too, `fetchTable_kinded`).  The
+check is a hypothesis on the database, not proved to be kept by the statements. -/
+theorem C18_select_on_any_table_never_panics (db : Engine.DB) (sdb : Spec.SDB) (pt sch : Levels)
+    (tbls : List (Bytes × Levels)) (h : DbInv db sdb pt sch tbls) (hc : catalogOK db = true) (q : Select)
+    (hq : (∃ a, q.list = [⟨.star, a⟩]) ∨ isStar q.list = false) :
+    (∀ n ∈ selectNames q, FetchTotal db n) ∧ ∀ s, evaluateSelect (fetchOf db) q ≠ .panic s :=
+  select_any_table_never_panics h.abs hc q hq
+
+/-- non-vacuity: the computed database passes the check, and `SELECT * FROM sys_schema ORDER BY field_type`
+returns (computed) the seven rows of the catalog under four columns -/
+example : DbInv tableDB sdbA0 ptT schT [(tname, tT)] ∧ catalogOK tableDB = true ∧
+    ((∃ a, exCatalogQuery.list = [⟨.star, a⟩]) ∨ isStar exCatalogQuery.list = false) ∧
+    (match evaluateSelect (fetchOf tableDB) exCatalogQuery with
+      | .ok (rows, hdr) => rows.length == 7 && hdr.length == 4
+      | _ => false) = true :=
+  ⟨dbFlushed_tableDB.inv, catalogOK_tableDB.1, .inl ⟨[], rfl⟩, catalogOK_tableDB.2⟩
+
+/-- **C18.parsed_select_has_the_shape**: the shape hypothesis of `C18_no_panic_partial` and of the theorems
+above holds of every SELECT `Parser.Parse` returns (`C10_parsed_statements_are_wellformed`: `*` stands
+alone in a select list) -/
+theorem C18_parsed_select_has_the_shape (ts : List Scan.Token) (q : Select) (h : parseTokens ts = .ok (.select q)) :
+    (∃ a, q.list = [⟨.star, a⟩]) ∨ isStar q.list = false :=
+  parsed_select_shape h
+
+/-- **C18.parsed_select_on_stored_tables_never_panics**: so for every token list the parser accepts as a
+SELECT over user tables, on every database that satisfies the invariant, the evaluation returns rows or
+an error value -/
+theorem C18_parsed_select_on_stored_tables_never_panics (db : Engine.DB) (sdb : Spec.SDB) (pt sch : Levels)
+    (tbls : List (Bytes × Levels)) (h : DbInv db sdb pt sch tbls) (ts : List Scan.Token) (q : Select)
+    (hp : parseTokens ts = .ok (.select q)) (hn : UserTables q) (s : String) :
+    evaluateSelect (fetchOf db) q ≠ .panic s :=
+  (select_on_stored_never_panics h.abs q (parsed_select_shape hp) hn).2.1 s
+
+/-- non-vacuity: the tokens of `SELECT * FROM t;` parse to a SELECT over the user table `t` -/
+example : parseTokens [⟨t_SELECT, []⟩, ⟨t_ASTRSK, []⟩, ⟨t_FROM, []⟩, ⟨t_IDENT, [116]⟩, ⟨t_SEMICOLON, []⟩] =
+      .ok (.select { list := [⟨.star, []⟩], from_ := some (.table ⟨[116], none⟩) }) ∧
+    UserTables { list := [⟨.star, []⟩], from_ := some (.table ⟨[116], none⟩) } :=
+  ⟨rfl, by decide +kernel⟩
+
+/-- **C18.select_after_any_history_never_panics**: run any list of statements from the database
+`CREATE DATABASE` leaves, each accepted by the plain model (with room) or refused before a change
+(`HistOK`, the hypothesis of `from_create_database_history`); on the database reached, a SELECT of a
+parser-produced shape over user tables never panics. -/
+theorem C18_select_after_any_history_never_panics (sts : List Sql.Stmt) (hok : HistOK [] sts newDB []) :
+    ∃ db', runHist [] newDB sts = some db' ∧ ∀ q : Select,
+      ((∃ a, q.list = [⟨.star, a⟩]) ∨ isStar q.list = false) → UserTables q →
+      (∀ n ∈ selectNames q, FetchTotal db' n) ∧ ∀ s, evaluateSelect (fetchOf db') q ≠ .panic s :=
+  history_select_never_panics sts hok
+
+/-- non-vacuity: `histOK_create_t` (Proofs/BaseCase1) - the history `CREATE TABLE t (a INT)` -/
+example : HistOK [] [.createTable tname acols] newDB [] := histOK_create_t
+
+end Mkdb.Store
+
+namespace Mkdb.Session
+open Mkdb.Engine Mkdb.Store Mkdb.Sql Mkdb.Exec
+
+/-- **C18.session_select_never_panics** (the SELECT that the session model leaves as a stub, evaluated).
+Run ANY list of statements from the empty session, going on after every error value (`SessOK`: the side
+conditions of `C18_session_never_crashes`).  In the session reached, on EVERY database of the session -
+the selected one in particular - every SELECT of a parser-produced shape over user tables reads its
+tables without a crash of `Fetch` and evaluates to rows or an error value: never a panic. -/
+theorem C18_session_select_never_panics (sts : List Sql.Stmt) (hok : SessOK {} sts) :
+    ∀ p ∈ (runAll {} sts).1.dbs, ∀ q : Select,
+      ((∃ a, q.list = [⟨.star, a⟩]) ∨ isStar q.list = false) → UserTables q →
+      (∀ n ∈ selectNames q, FetchTotal p.2 n) ∧ ∀ x, evaluateSelect (fetchOf p.2) q ≠ .panic x :=
+  session_select_never_panics sts hok
+
+/-- non-vacuity: a history with a refused USE, two CREATE DATABASE and a USE meets `SessOK` -/
+example : SessOK {} [.use [120], .createDatabase [100], .createDatabase [101], .use [100], .select exGroupQuery] :=
+  sessOK_plain _ {} (by
+    intro st hst
+    simp only [List.mem_cons, List.not_mem_nil, or_false] at hst
+    rcases hst with rfl | rfl | rfl | rfl | rfl <;> exact trivial)
+
+/-- the same from any session that satisfies the invariant -/
+theorem C18_session_state_select_never_panics (s : Sess) (h : SessInv s) :
+    ∀ p ∈ s.dbs, ∀ q : Select, ((∃ a, q.list = [⟨.star, a⟩]) ∨ isStar q.list = false) → UserTables q →
+      (∀ n ∈ selectNames q, FetchTotal p.2 n) ∧ ∀ x, evaluateSelect (fetchOf p.2) q ≠ .panic x :=
+  sessInv_select_never_panics h
+
+/-- non-vacuity: the session whose selected database is the computed `tableDB` satisfies the invariant and
+holds that database -/
+example : SessInv sessT ∧ ("d", tableDB) ∈ sessT.dbs := ⟨⟨_, sessAbs_sessT⟩, by simp [sessT]⟩
 
 end Mkdb.Session
